@@ -23,6 +23,7 @@ CONSTANTS Lens,      \* total lengths of the requests explored
           Maxes,     \* limits a CONNACK may announce; NoLimit stands for a CONNACK without the property
           InIds,     \* identifiers of inbound QoS 2 messages
           MaxOps, MaxConn,
+          Stalls,    \* TRUE: a poll may be dropped while the acknowledgement it queued is not yet written
           Dev,       \* "replay_unchecked", "retain_before_check", "sid_before_check", "q0_unchecked", "ack_unchecked"
           Record
 
@@ -38,9 +39,11 @@ VARIABLES max,        \* limit of the current connection (NoLimit: none announce
           relq,       \* broker side: PUBREC received, PUBREL to be sent
           got,        \* identifier -> number of deliveries to the application
           sentmsg,    \* identifier -> number of distinct messages the broker sent under it
+          pend,       \* an acknowledgement is queued and unsent (left by a stalled poll that was dropped)
           viol,
+          kf,         \* known findings met (as built): "D12", "D14"
           hist
-vars == << max, live, conn, ops, ret, sids, owed, relq, got, sentmsg, viol, hist >>
+vars == << max, live, conn, ops, ret, sids, owed, relq, got, sentmsg, pend, viol, kf, hist >>
 
 Fits(len) == len <= max
 
@@ -52,16 +55,28 @@ Init ==
   /\ max \in Maxes /\ live = TRUE /\ conn = 1 /\ ops = 0
   /\ ret = << >> /\ sids = {} /\ owed = {} /\ relq = {}
   /\ got = [i \in InIds |-> 0] /\ sentmsg = [i \in InIds |-> 0]
-  /\ viol = {} /\ hist = << >>
+  /\ pend = FALSE /\ viol = {} /\ kf = {} /\ hist = << >>
 
-\* ---- flush_outbound: stored packets not yet sent on this connection go out in order ------------------
+\* ---- flush_outbound: the queued acknowledgement first, then stored packets not yet sent on this connection,
+\* in order (outbound.rs next_step) ---------------------------------------------------------------------------
+\* As built (known finding D14): an acknowledgement carried into a connection whose limit it exceeds is not
+\* sent, not dropped, and the connection is not closed -- every operation fails as too large.
+AckBlocked == pend /\ ~Fits(AckLen)
 Unsent == {i \in 1..Len(ret) : ret[i].sc < conn}
 Bad == IF "replay_unchecked" \in Dev THEN {} ELSE {i \in Unsent : ~Fits(ret[i].len)}
-Blocked == Bad # {}
-FirstBad == CHOOSE i \in Bad : \A j \in Bad : i <= j
+Blocked == AckBlocked \/ Bad # {}
+FirstBad == IF AckBlocked THEN 0 ELSE CHOOSE i \in Bad : \A j \in Bad : i <= j
 \* the stored packets after the flush, and what the flush put on the wire
 Flushed == [i \in 1..Len(ret) |-> IF ret[i].sc < conn /\ (~Blocked \/ i < FirstBad) THEN [ret[i] EXCEPT !.sc = conn] ELSE ret[i]]
-FlushWire == {ret[i].len : i \in {j \in Unsent : ~Blocked \/ j < FirstBad}}
+FlushWire == {ret[i].len : i \in {j \in Unsent : ~Blocked \/ j < FirstBad}} \cup (IF pend /\ ~AckBlocked THEN {AckLen} ELSE {})
+\* what a refusal behind a blocked queue means: a packet from an EARLIER connection that the new limit no longer
+\* admits (D12), the carried-over acknowledgement (D14) -- anything else is a violation
+RefusedBehind(len) ==
+  IF ~Fits(len) THEN << {}, {} >>
+  ELSE IF AckBlocked THEN << {}, {"D14"} >>
+  ELSE IF ret[FirstBad].sc = 0 THEN << {"refused_although_fits"}, {} >>
+  ELSE << {}, {"D12"} >>
+PollBehind == IF AckBlocked THEN {"D14"} ELSE IF ret[FirstBad].sc = 0 THEN {} ELSE {"D12"}
 WireViol(lens) == IF \E l \in lens : ~Fits(l) THEN {"oversize_sent"} ELSE {}
 
 \* ---- requests ------------------------------------------------------------------------------------------
@@ -69,10 +84,12 @@ WireViol(lens) == IF \E l \in lens : ~Fits(l) THEN {"oversize_sent"} ELSE {}
 Pub(len) ==
   /\ live /\ ops < MaxOps /\ ops' = ops + 1
   /\ UNCHANGED << max, live, conn, sids, owed, relq, got, sentmsg >>
+  /\ pend' = AckBlocked
+  /\ kf' = IF Blocked THEN kf \cup RefusedBehind(len)[2] ELSE kf
   /\ IF Blocked THEN
-        \* D12: the request is refused whatever its own length
+        \* the request is refused whatever its own length
         /\ ret' = Flushed
-        /\ viol' = viol \cup WireViol(FlushWire) \cup (IF Fits(len) /\ ret[FirstBad].sc = 0 THEN {"refused_although_fits"} ELSE {})
+        /\ viol' = viol \cup WireViol(FlushWire) \cup RefusedBehind(len)[1]
         /\ hist' = Log("pub", len, "PacketTooLarge")
      ELSE IF Len(ret) = MaxRet THEN
         /\ ret' = Flushed /\ viol' = viol \cup WireViol(FlushWire)
@@ -94,9 +111,11 @@ Pub(len) ==
 Q0(len) ==
   /\ live /\ ops < MaxOps /\ ops' = ops + 1
   /\ UNCHANGED << max, live, conn, sids, owed, relq, got, sentmsg >>
+  /\ pend' = AckBlocked
+  /\ kf' = IF Blocked THEN kf \cup RefusedBehind(len)[2] ELSE kf
   /\ ret' = Flushed
   /\ IF Blocked THEN
-        /\ viol' = viol \cup WireViol(FlushWire) \cup (IF Fits(len) /\ ret[FirstBad].sc = 0 THEN {"refused_although_fits"} ELSE {})
+        /\ viol' = viol \cup WireViol(FlushWire) \cup RefusedBehind(len)[1]
         /\ hist' = Log("q0", len, "PacketTooLarge")
      ELSE IF ~Fits(len) /\ "q0_unchecked" \notin Dev THEN
         /\ viol' = viol \cup WireViol(FlushWire)
@@ -109,6 +128,8 @@ Q0(len) ==
 Poll ==
   /\ live /\ ops < MaxOps /\ ops' = ops + 1
   /\ UNCHANGED << max, live, conn, sids, owed, relq, got, sentmsg >>
+  /\ pend' = AckBlocked
+  /\ kf' = IF Blocked THEN kf \cup PollBehind ELSE kf
   /\ viol' = viol \cup WireViol(FlushWire)
   /\ IF Blocked THEN
         /\ ret' = Flushed
@@ -127,7 +148,8 @@ AfterAcks(closed) == IF closed /\ Unsent # {} THEN Flushed ELSE << >>
 \* a QoS 1 PUBLISH: delivered and acknowledged, or -- if the PUBACK does not fit -- the connection is closed
 In1 ==
   /\ live /\ ~Blocked /\ ops < MaxOps /\ ops' = ops + 1
-  /\ UNCHANGED << max, conn, sids, owed, relq, got, sentmsg >>
+  /\ UNCHANGED << max, conn, sids, owed, relq, got, sentmsg, kf >>
+  /\ pend' = FALSE
   /\ IF Fits(AckLen) \/ "ack_unchecked" \in Dev THEN
         /\ live' = TRUE /\ viol' = viol \cup WireViol(FlushWire \cup {AckLen})
         /\ ret' = AfterAcks(FALSE)
@@ -143,7 +165,8 @@ In2(i) ==
   /\ live /\ ~Blocked /\ ops < MaxOps /\ ops' = ops + 1
   /\ i \notin relq
   /\ i \notin owed => i \notin sids          \* the broker reuses an identifier only after PUBCOMP
-  /\ UNCHANGED << max, conn >>
+  /\ UNCHANGED << max, conn, kf >>
+  /\ pend' = FALSE
   /\ ret' = AfterAcks(~Fits(AckLen))
   /\ sentmsg' = IF i \in owed THEN sentmsg ELSE [sentmsg EXCEPT ![i] = @ + 1]
   /\ IF Fits(AckLen) THEN
@@ -165,7 +188,8 @@ In2(i) ==
 Rel(i) ==
   /\ live /\ ~Blocked /\ ops < MaxOps /\ ops' = ops + 1
   /\ i \in relq
-  /\ UNCHANGED << max, conn, owed, got, sentmsg >>
+  /\ UNCHANGED << max, conn, owed, got, sentmsg, kf >>
+  /\ pend' = FALSE
   /\ ret' = AfterAcks(~Fits(AckLen))
   /\ IF Fits(AckLen) THEN
         /\ live' = TRUE /\ sids' = sids \ {i} /\ relq' = relq \ {i}
@@ -178,23 +202,34 @@ Rel(i) ==
         /\ viol' = viol \cup WireViol(FlushWire)
         /\ hist' = Log("rel", << i, Len(ret) >>, "PacketTooLarge")
 
+\* a QoS 1 PUBLISH is read and delivered, its PUBACK queued -- and the transport stalls: the application drops
+\* the poll, the acknowledgement stays queued (it is sent by the next flush, also on a later connection)
+StallIn1 ==
+  /\ Stalls /\ live /\ ~Blocked /\ ~pend /\ ops < MaxOps /\ ops' = ops + 1
+  /\ Fits(AckLen)
+  /\ UNCHANGED << max, conn, live, sids, owed, relq, got, sentmsg, kf >>
+  /\ pend' = TRUE
+  /\ ret' = AfterAcks(FALSE)
+  /\ viol' = viol \cup WireViol(FlushWire)
+  /\ hist' = Log("stallin1", Len(ret), "msg")
+
 \* ---- connections ------------------------------------------------------------------------------------------
 Drop ==
   /\ live /\ conn < MaxConn
   /\ live' = FALSE
-  /\ UNCHANGED << max, conn, ops, ret, sids, owed, relq, got, sentmsg, viol >>
+  /\ UNCHANGED << max, conn, ops, ret, sids, owed, relq, got, sentmsg, pend, viol, kf >>
   /\ hist' = Log("drop", 0, "")
 
 \* the broker resumes the session and announces limit m (CONNECT itself is not subject to any limit)
 Connect(m) ==
   /\ ~live /\ conn < MaxConn
   /\ live' = TRUE /\ max' = m /\ conn' = conn + 1
-  /\ UNCHANGED << ops, ret, sids, owed, relq, got, sentmsg, viol >>
+  /\ UNCHANGED << ops, ret, sids, owed, relq, got, sentmsg, pend, viol, kf >>
   /\ hist' = Log("conn", m, "ok")
 
 Next ==
   \/ \E len \in Lens : Pub(len) \/ Q0(len)
-  \/ Poll \/ In1 \/ (\E i \in InIds : In2(i) \/ Rel(i))
+  \/ Poll \/ In1 \/ StallIn1 \/ (\E i \in InIds : In2(i) \/ Rel(i))
   \/ Drop \/ (\E m \in Maxes : Connect(m))
 
 Spec == Init /\ [][Next]_vars
@@ -207,6 +242,8 @@ Inv_C14_wire == "oversize_sent" \notin viol
 Inv_C14_stored == \A i \in 1..Len(ret) : ret[i].sc > 0
 \* C12 / C14: a request that fits is refused as too large only behind such a packet
 Inv_C12_usable == "refused_although_fits" \notin viol
+\* the only ways into a queue that refuses everything are the two recorded findings
+Inv_KF == kf \subseteq {"D12", "D14"}
 \* C04: an identifier recorded as received belongs to a message that was delivered; no message twice
 Inv_C04_recorded == \A i \in sids : got[i] >= 1
 Inv_C04_once == \A i \in InIds : got[i] <= sentmsg[i]
